@@ -58,6 +58,10 @@ CLASS_TO_FINDING: Dict[str, str] = {
     "path-dot-highlight-misses-main-blocks": "D8",
     "json-success-inverted-on-success": "D9",
     "json-success-inverted-on-error": "D9",
+    "init:KeyError@teal/functions.py:return_point_blocks[retsub-in-main]": "D24",
+    "init:KeyError@analyses/dataflow/transaction_context/generic.py:_calculate_reachin[shared-block]": "D25",
+    # `--filter-paths ""` is the option's default and documented as "no filter"
+    "filter-empty-pattern-keeps-all": "NOTE-outside-claim",
 }
 # observations that are recorded in summary["notes"] but are not violations of the property as stated
 NOTE_CLASSES = {"json-stdout-has-preamble"}
